@@ -8,6 +8,7 @@ Line-protocol driver for the signals group (C16, C17, C18-signals).  One output 
       prog = the registry calls handler h makes whenever it is called: ACT = o.N.T.g (observe) | u.N.T.g (unobserve) | c.N
       (clear_all_subscriptions), N: name or *, T: type or *; only calls that are accepted are admitted
       `|` = class boundary (most derived class first), `ovr:name:kind` = this base class defines `name` as well (overridden)
+      `veq` = implementation side only: the owners of the bound-method handlers (odd h) define `__eq__` by value
       observe N T h | unobserve N T h | clear N | drop h         (N: name or *, T: type or *)
       set n v | lassign n vs | lset n i v | lsetslice n a b vs | ldel n i | ldelslice n a b
       lsetslicex n A B C vs | ldelslicex n A B C      (`slice(A, B, C)`, each an int or N = None)
@@ -285,9 +286,11 @@ def stepLine (m : Mach) (ws : List String) : Mach × String :=
   match ws with
   | "scenario" :: "sig" :: ds =>
     -- `|` (class boundary) and `natural` (real sets on the Python side) only concern the implementation runner
+    -- `veq`: the owners of the bound-method handlers are value objects with an `__eq__` of their own (equal while they have
+    -- recorded the same signals); handlers are identities here (`H = Nat`, `h ≠ g` is about the handler, not its owner)
     -- `ovr:name:kind`: a base class defines the same name again; as in attribute lookup the most derived definition
     -- is the one in effect (M26 repaired), the overridden one is not a declaration
-    match ((ds.filter fun t => t ≠ "|" ∧ t ≠ "natural" ∧ !t.startsWith "prog:" ∧ !t.startsWith "ovr:").mapM parseDecl),
+    match ((ds.filter fun t => t ≠ "|" ∧ t ≠ "natural" ∧ t ≠ "veq" ∧ !t.startsWith "prog:" ∧ !t.startsWith "ovr:").mapM parseDecl),
           ((ds.filter fun t => t.startsWith "prog:").mapM parseSigProg) with
     | some decls, some progs =>
       if (decls.map (·.name)).eraseDups.length = decls.length ∧ (progs.map (·.1)).eraseDups.length = progs.length ∧
